@@ -1,7 +1,9 @@
 import GopModel.Driver.Loop
 import GopModel.Driver.Rearrange
 import GopModel.Driver.Frame
+import GopModel.Driver.ImportSort
 open GopModel.Driver
 def main : IO Unit := runDriver (dispatchWith [
   ("c24", handleC24), ("c24x", handleC24x),
-  ("c38r", handleC38r), ("c38w", handleC38w), ("c38id", handleC38id), ("c38ln", handleC38ln)])
+  ("c38r", handleC38r), ("c38w", handleC38w), ("c38id", handleC38id), ("c38ln", handleC38ln),
+  ("c23", handleC23)])
